@@ -23,6 +23,29 @@ CHECKS = {
     ),
 }
 
+CHECKS["C04"] = dict(
+    category="proof",
+    text=("Path property decided on the MIR control-flow graph of the signing core and the call graph above it: exactly one "
+          "static call site of the update callback, loop-free and reached at most once per entry call; every ok-capable "
+          "definition of the return place is dominated by the success edge of the test on the callback's result and the failure "
+          "edge reaches only error returns; the callback's argument is the serialisation of the key after its increment and the "
+          "serialiser reads every key field; failure edges of all earlier fallible steps cannot reach the callback and the one "
+          "later fallible step cannot fail (capacity argument). All paths are covered, which is exactly what the property quantifies over."),
+    note="Trusts rustc's MIR construction and the enumerated result-flow idioms (an unrecognised idiom fails closed). The user's callback body is out of scope.",
+    technique="must-pass-through / edge-dominance analysis on MIR CFG, result-flow idioms, call-graph multiplicity",
+    design_ref="DESIGN.md section 3 / C04",
+)
+CHECKS["C16"] = dict(
+    category="proof",
+    text=("Type-structural: every type embedding the zeroizing wrapper and every type containing one by value is enumerated from the "
+          "ADT definitions; the MIR of each Zeroize and Drop impl must pass every storage-owning field to a zeroize call; leaf holders "
+          "must wipe on drop; containers must consist of self-wiping parts; no drop suppression or Copy on secret types; the wrapper is "
+          "wiped by zeroize's volatile whole-value impl with a full-capacity default; the explicit wipe on exhaustion overwrites every field."),
+    note="Trusts the zeroize crate's DefaultIsZeroes impl and Rust drop glue. Transient plain byte buffers are observations, not violations.",
+    technique="type containment closure + MIR field-coverage analysis of Zeroize/Drop impls",
+    design_ref="DESIGN.md section 3 / C16",
+)
+
 NOT_APPLICABLE = {
     "C01": ("Round-trip completeness (sign then verify succeeds) is equality of two computations over runtime values "
             "(message, seed, counter, 6x4x5^L parameter shapes); no dataflow/typestate fact bounds it. Its structural "
